@@ -14,7 +14,8 @@ EXPLANATION = ("Translation validation of macro expansions: the harness crate ha
                "options = the given options value, or Opts::new(NAME, HELP).const_labels(map extended by exactly the given label maps) resp. HistogramOpts::new(NAME, HELP)[.buckets(B)]"
                "[.const_labels(L)]; registration on the registry argument or through prometheus::register (which forwards to DEFAULT_REGISTRY); the boxed collector is a clone of the "
                "constructed metric and the returned handle is that same metric; a refused registration propagates Err. Because arguments are opaque parameters the result holds for all "
-               "argument values. The number of arms of each macro in src/macros.rs is compared with the table so that a new arm is reported as uncovered.")
+               "argument values. The number of arms of each macro in src/macros.rs is compared with the table so that a new arm is reported as uncovered. What `register` itself does "
+               "with the collector (exact admission, recording only on success, check and insert inside one write-lock span) is decided by the registry rules C06.R2/R3/R5, run here as F4.")
 ASSUMPTIONS = ["rustc's macro expansion of the harness is the expansion a user gets (same crate path `prometheus::`)", "the constructors' own behaviour is the subject of other properties"]
 TECHNIQUE = "translation validation: rule-based comparison of the MIR of macro expansions (harness of all public forms) against a spec table; no execution"
 P = lambda i: ("param", i)  # noqa: E731
